@@ -40,6 +40,13 @@ func (g *c09Gen) addFile(f *mj.File)         { g.p.Files = append(g.p.Files, f) 
 // returns(): statements that execute `return` at a generated position.
 func (g *c09Gen) returns(depth int, allowInclude bool) []*mj.Node {
 	val := func() *mj.Expr {
+		if g.n(0, 7, "retTypedNil") == 0 {
+			// a nil slice / nil map is a value (it prints as [] / map[], has a length): not the same as no value
+			nm := []string{"rnilxs", "rnilm"}[g.n(0, 1, "retTypedNilKind")]
+			g.p.Vars[nm] = mj.Recipe{T: map[string]string{"rnilxs": "nil[]int", "rnilm": "nilmap"}[nm]}
+			g.labels["return-of-a-typed-nil"] = true
+			return mj.Var(nm)
+		}
 		if g.n(0, 2, "retnum") == 0 {
 			return mj.Num(float64(g.n(1, 9, "retnumv")))
 		}
@@ -391,6 +398,20 @@ func genC09(t *rapid.T) c09Case {
 			g.labels["callees-created-after-a-first-execution"] = true
 		}
 	}
+	if !usePick && len(g.p.Late) == 0 && !g.p.Dev && g.n(0, 3, "gone") == 0 {
+		// some callees disappear from the loader after the set has used them once: what it has loaded it has
+		for _, f := range g.p.Files[2:] {
+			if strings.Contains(f.Path, "broken") {
+				continue // (what could not be parsed is not remembered: afterwards it is missing, not unparsable)
+			}
+			if g.n(0, 1, "isGone") == 0 {
+				g.p.Gone = append(g.p.Gone, f.Path)
+			}
+		}
+		if len(g.p.Gone) > 0 {
+			g.labels["callees-deleted-from-the-loader-after-a-first-execution"] = true
+		}
+	}
 	c := c09Case{Prog: g.p}
 	src := mj.NewPrinter().Sources(g.p)
 	var paths []string
@@ -456,7 +477,7 @@ func judgeC09(c c09Case) (v core.Verdict) {
 
 func TestC09(t *testing.T) {
 	core.Run(t, "C09",
-		"template sets with files in nested directories: call sites of include (absolute, ./ and ../ relative, computed names, name and context both read from the dot of a range, names that are fmt.Stringers of struct and of string kind; with/without context), exec (with/without context; callee with return at every position: none, top, several, in if, in range, in try/catch, in a block body, in yield content, followed by statements that return nothing, return nil, inside an included sub-template) and includeIfExists (existing, missing - also with a context expression that would fail if evaluated -, unparsable; as statement and as condition), placed at depth 0-3 inside range / block / try / other includes; callees extend 0-2 levels, declare variables, rebind '.', define blocks, yield the caller's blocks, assign the caller's variables; probes after every call site; exec of a name computed by a function that answers differently on every call; one case in forty with more than 1000 includes in one loop; one case in four with some callee files created only after a first execution of the set; also: `return nil` after a return with a value, directly in the list and below if / range / try / block / yield content / include; '.' and the loop variable after a range that returned; oracle = MiniJet reference interpreter; non-trivial = call site at depth>=2 with a callee that rebinds '.' / an exec / an explicit context",
+		"template sets with files in nested directories: call sites of include (absolute, ./ and ../ relative, computed names, name and context both read from the dot of a range, names that are fmt.Stringers of struct and of string kind; with/without context), exec (with/without context; callee with return at every position: none, top, several, in if, in range, in try/catch, in a block body, in yield content, followed by statements that return nothing, return nil, inside an included sub-template) and includeIfExists (existing, missing - also with a context expression that would fail if evaluated -, unparsable; as statement and as condition), placed at depth 0-3 inside range / block / try / other includes; callees extend 0-2 levels, declare variables, rebind '.', define blocks, yield the caller's blocks, assign the caller's variables; probes after every call site; exec of a name computed by a function that answers differently on every call; one case in forty with more than 1000 includes in one loop; one case in four with some callee files created only after a first execution of the set; also: `return nil` after a return with a value, directly in the list and below if / range / try / block / yield content / include; '.' and the loop variable after a range that returned; round 10: returns of typed nils (nil slice, nil map); callee files deleted from the loader after a first execution; oracle = MiniJet reference interpreter; non-trivial = call site at depth>=2 with a callee that rebinds '.' / an exec / an explicit context",
 		genC09, judgeC09)
 }
 
